@@ -593,6 +593,8 @@ class Gen:
                     conds.append(c)
                     head += "{%s} " % tc
             cid = "%s.%s" % (self.cur, label) if label else self.fresh("#c")
+            # the divert written on the choice's own line: `* text -> target` (the line goes on in the target), `* -> target`
+            inline = self.has("choice_divert") and self.p(0.2)
             if i == fb_at:
                 # invisible default choice: no text, content on the following lines
                 start_b, only_b, out_b = self.body([]), self.body([]), self.body([])
@@ -627,15 +629,23 @@ class Gen:
                         text = text.replace("]", " # %s]" % tg, 1)
                     elif inner:
                         inner, text = inner + tag, text + " # " + tg
+                    inline = False
                 start_b, only_b = self.body(start), self.body(only)
-                out_b = self.body(clone(start) + clone(inner) + [{"k": "nl"}])
+                out_b = self.body(clone(start) + clone(inner) + ([{"k": "s", "v": chars(" ")}] if inline else [{"k": "nl"}]))
                 lines.append(head + text)
             # body of the choice
             saved = list(self.temps)
             saved_ac, self.after_choice = self.after_choice, not (i == fb_at)
             bind = "    " * level
-            bstmts, blines = self.flow_items(bind, r.randint(0, 2), level + 1)
-            if level < 2 and self.has("nested") and self.p(0.3):
+            if inline:
+                bstmts, dl = self.divert("")
+                lines[-1] = (lines[-1][:-2] + dl[0]) if i == fb_at else (lines[-1] + " " + dl[0])
+                blines = []
+            else:
+                bstmts, blines = self.flow_items(bind, r.randint(0, 2), level + 1)
+            if inline:
+                pass
+            elif level < 2 and self.has("nested") and self.p(0.3):
                 s, l = self.choice_block(level + 1, lambda ind2: self.flow_items(ind2, r.randint(0, 1), level + 1))
                 bstmts += s
                 blines += l
@@ -645,7 +655,7 @@ class Gen:
                 blines += l
             self.temps = saved
             self.after_choice = saved_ac
-            if i == fb_at and not blines:
+            if i == fb_at and not blines and not inline:
                 s, l = self.line(bind)
                 bstmts += s
                 blines += l
@@ -851,7 +861,7 @@ class Gen:
             if self.has("divert_vars"):
                 # a parameter that takes a divert target (`== k1(-> q) ==`, `-> q`): it is only ever given knots that come
                 # later than the knot itself and have no parameters of their own
-                for i, n in enumerate(names[1:], 1):
+                for i, n in reversed(list(enumerate(names[1:], 1))):       # (the later knots are decided first)
                     later = [x for x in names[i + 1:] if x not in self.kparams]
                     if n not in self.stitched and later and self.p(0.4):
                         q = "q%s" % n
